@@ -329,11 +329,11 @@ def corner_scenarios(pid, rnd):
 # running and judging
 
 
-def run_harness(pid, scen_rows, seed, nrandom, timeout=1200):
+def run_harness(pid, scen_rows, seed, nrandom, timeout=1200, prefix=""):
     out = vlib.outdir(pid)
-    scen = os.path.join(out, "scenarios.ndjson")
+    scen = os.path.join(out, prefix + "scenarios.ndjson")
     vlib.write_ndjson(scen, scen_rows)
-    obs = os.path.join(out, "obs.ndjson")
+    obs = os.path.join(out, prefix + "obs.ndjson")
     if os.path.exists(obs):
         os.remove(obs)
     rc, gout, wall = vlib.go_test("mcp", "^TestVerif_StreamSrv$", HARNESS, timeout=timeout,
@@ -408,7 +408,7 @@ def signature(pid, clause, trows, upto, e):
     return "%s:%s:sess=%d,inflight=%d,done=%d,get=%d" % (clause, mode_of(head), len(sessions), len(posted - retd), len(retd), gets)
 
 
-def judge(v, pid, obs, rows, scen_by_id):
+def judge(v, pid, obs, rows, scen_by_id, replay_key="scenario"):
     fails, mres = vlib.run_monitor("StreamSrvMon", "StreamSrvMon.cfg", obs, timeout=1800, heap_gb=8)
     v.add_tlc("StreamSrvMon", mres)
     traces = vlib.split_traces(rows)
@@ -433,8 +433,8 @@ def judge(v, pid, obs, rows, scen_by_id):
         ev.pop("snap", None)
         v.violation(signature(pid, clause, trows, f["line"] - start, e),
                     "%s failed at line %d (trace %s, event %s %s)" % (clause, f["line"], tid, e.get("ev"), e.get("x") or e.get("tag") or ""),
-                    {"scenario": sc, "event": ev})
-    v.cov["other_property_clauses_failed"] = other
+                    {replay_key: sc, "event": ev})
+    v.cov["other_property_clauses_failed" if replay_key == "scenario" else "http_other_property_clauses_failed"] = other
     return traces, bad
 
 
@@ -598,6 +598,34 @@ def family_run(pid, tier, seed, replay):
     for tid, start, trows in traces[:3]:
         v.sample({"trace": tid, "mode": mode_of(trows[0]), "steps": steps_of_trace(trows)[:14]})
     return v.finish()
+
+
+def satellite(v, pid, tier, seed, replay_scn=None):
+    """The streamable-HTTP part of a connection property (C02, C03, C04): those properties quantify over "every
+    transport", and on the streamable server transport answering, ordering and cancellation depend on the stream
+    bookkeeping modelled by StreamSrv.tla.  Runs the hand-written gated races of C08/C10, a sample of the transition
+    cover of the seam-level TLC graph and seeded random scenarios on a real StreamableHTTPHandler and reports the
+    clauses of StreamSrvMon prefixed with `pid` (C02.HttpCallAnswered / HttpAnsweredAtMostOnce, C03.SameStreamOrder,
+    C04.CancelNoticeReachesPeer) into the caller's verdict."""
+    rnd = random.Random(seed * 104729 + int(pid[1:]))
+    if replay_scn is not None:
+        rows, nrand = [replay_scn], 0
+    else:
+        rows = []
+        picks = {"C02": [("C10", 1), ("C10", 3)], "C03": [("C08", 0), ("C08", 1)], "C04": [("C10", 0), ("C10", 2)]}[pid]
+        limit = 25 if tier == "quick" else 400
+        for i, (fam, k) in enumerate(picks):
+            cfg, store, js, stateless, prime = FAMILY[fam]["cover"]["quick"][k]
+            rows += cover_scenarios(v, cfg, store, js, stateless, prime, seed, rnd, limit, "hcov%d." % i)
+        rows += simulate_scenarios(v, FAMILY["C10" if pid != "C03" else "C08"]["gen"], 40 if tier == "quick" else 400, 70, seed, rnd, "hsim")
+        rows += corner_scenarios("C08", rnd) + [dict(r, id="x-" + r["id"]) for r in corner_scenarios("C10", rnd)]
+        nrand = 60 if tier == "quick" else 800
+    obs, orows = run_harness(pid, rows, seed, nrand, prefix="http_")
+    traces, bad = judge(v, pid, obs, orows, {r["id"]: r for r in rows}, replay_key="streamsrv_scenario")
+    v.cov["http_scenarios_run"] = len(traces)
+    v.cov["http_steps_executed"] = sum(len(steps_of_trace(t)) for (_, _, t) in traces)
+    v.cov["traces_validated_against_impl"] = v.cov.get("traces_validated_against_impl", 0) + len(traces)
+    return traces
 
 
 def run(tier, seed, replay):
